@@ -315,10 +315,10 @@ def _mc_subs(ctx, name, text, need):
     return res
 
 
-def subs_cfg(bearers, chars, maxcalls, lens, maxwrites, initvals, lossy, liveness):
+def subs_cfg(bearers, chars, maxcalls, lens, maxwrites, initvals, lossy, liveness, initlocal='{{}, {"ntf", "ind"}}'):
     return ("SPECIFICATION Spec\nCONSTANTS\n"
             f"  Bearers = {{{', '.join(map(str, bearers))}}}\n  Chars = {{{', '.join(map(str, chars))}}}\n  MaxCalls = {maxcalls}\n"
-            f"  Lens = {{{', '.join(map(str, lens))}}}\n  Mtu0 = 5\n  MaxWrites = {maxwrites}\n  InitVals = {{{', '.join(map(str, initvals))}}}\n  Lossy = {'TRUE' if lossy else 'FALSE'}\n"
+            f"  Lens = {{{', '.join(map(str, lens))}}}\n  Mtu0 = 5\n  MaxWrites = {maxwrites}\n  InitVals = {{{', '.join(map(str, initvals))}}}\n  Lossy = {'TRUE' if lossy else 'FALSE'}\n  InitLocal = {initlocal}\n"
             "INVARIANT TypeOK\nINVARIANT OneOutstanding\nINVARIANT OnlyOwed\nINVARIANT AllReached\n"
             + ("PROPERTY Returns\nPROPERTY AllDelivered\n" if liveness else "") + "CHECK_DEADLOCK FALSE\n")
 
@@ -369,13 +369,13 @@ def validate_subs(ctx, rep, scs, runs, count=True):
         l = v[1]
         evt = tr[l - 1] if 0 < l <= len(tr) else {"e": "?"}
         g = v[3] if len(v) > 3 and isinstance(v[3], dict) else {}
-        clause = next((k for k in ("owed", "kind", "len", "slot", "cb", "cfm", "ret", "quiet") if g.get(k) is False), "order")
+        clause = next((k for k in ("owed", "kind", "len", "slot", "cb", "nocb", "cfm", "ret", "quiet") if g.get(k) is False), "order")
         # the API call this event belongs to: the call named by ret, else the latest call addressing the bearer
         apis = [e for e in tr[:l] if e["e"] == "api"]
         call = None
         if evt["e"] == "ret":
             call = next((e for e in apis if e["id"] == evt["id"]), None)
-        elif evt["e"] in ("pdu", "cb", "cfm"):
+        elif evt["e"] in ("pdu", "cb", "nocb", "cfm"):
             call = next((e for e in reversed(apis) if evt["b"] in e["targets"] and (evt["e"] == "cfm" or e["c"] == evt["c"])), None)
         call = call or (apis[-1] if apis else {"api": "none", "targets": [], "force": 0})
         after = [(e["e"], e["b"], e["kind"], e["len"]) for e in tr[l : l + 4] if e["e"] in ("pdu", "cb", "cfm")]
@@ -385,6 +385,7 @@ def validate_subs(ctx, rep, scs, runs, count=True):
             "len": f"the {evt.get('kind')} PDU on bearer {evt.get('b')} carries {evt.get('len')} value bytes, expected min(value length, ATT_MTU-3)",
             "slot": f"an indication arrived on bearer {evt.get('b')} while the previous one was not confirmed",
             "cb": f"subscriber callback {evt.get('kind')}/{evt.get('c')}/{evt.get('len')} on bearer {evt.get('b')} does not match the PDU that arrived",
+            "nocb": f"the {evt.get('kind')} PDU for characteristic {evt.get('c')} on bearer {evt.get('b')} was not handed to the subscriber registered for it",
             "cfm": f"confirmation on bearer {evt.get('b')} without an outstanding indication",
             "ret": f"{call['api']} {'raised / timed out' if evt.get('ok') == 0 else 'returned before the indications it owed were sent and confirmed'}; what followed: {after}",
             "quiet": f"at quiescence PDUs are still owed or undelivered: {g.get('open')}",
@@ -402,7 +403,7 @@ def part_subs(ctx, rep, rounds, server_wrap=None, client_wrap=None, count=True, 
 
 
 def mc_subs(ctx, rep):
-    acts = ["WriteCccd", "Api", "SendNtf", "SendInd", "Callback", "Confirm", "Expire", "Return"]
+    acts = ["WriteCccd", "LocalSub", "LocalUnsub", "LocalGone", "Api", "SendNtf", "SendInd", "Callback", "Discard", "Confirm", "Expire", "Return"]
     ALL = [0, 1, 2, 3]
     runs = []
     if ctx.quick:
@@ -420,7 +421,7 @@ def mc_subs(ctx, rep):
 
     def one(r):
         name, text, consts = r
-        need = [a for a in acts if not (a == "WriteCccd" and "MaxWrites = 0" in text) and not (a == "Expire" and "Lossy = FALSE" in text)]
+        need = [a for a in acts if not (a in ("WriteCccd", "LocalSub", "LocalUnsub", "LocalGone") and "MaxWrites = 0" in text) and not (a == "Expire" and "Lossy = FALSE" in text)]
         return _mc_subs(ctx, name, text, need), consts
 
     with concurrent.futures.ThreadPoolExecutor(max_workers=4) as ex:
@@ -432,7 +433,7 @@ def mc_subs(ctx, rep):
 def run(ctx, rep):
     rep.rule = ("(A) one replay per edge of the Strict state graph of Discovery.tla (shortest path from Init + the edge = one adversarial response "
                 "sequence) by a raw ATT puppet against the real gatt_client.Client, validated by DiscoveryTrace.tla; (B) seeded databases x 25 "
-                "client/server MTU preference pairs validated by DbTrace.tla, seeded subscription scenarios (8 API families x CCCD values) "
+                "client/server MTU preference pairs validated by DbTrace.tla, seeded subscription scenarios (API families x CCCD values, one of them with nothing registered in the clients' own subscriber tables - CCCD written raw, forced, Client.unsubscribe racing an indication) "
                 "validated by SubsTrace.tla; distinct = distinct (procedure, range, response sequence) / (MTU pair, database class) / "
                 "(family, bearers, MTUs, CCCD assignment)")
     rep.assumptions = [
@@ -440,7 +441,7 @@ def run(ctx, rep):
         "discovery termination: every request starts strictly after the previous one or the procedure ends (DESIGN Appendix D); "
         "ending by exception or by the 30 s request time-out counts as ending",
         "request starting handles are compared with Part G 4.4-4.7 (one after the last handle of the previous response) while the client follows the reference behaviour",
-        "subscription state is the CCCD value at the time of the API call (no CCCD write races an API call in the scenarios)",
+        "subscription state is the CCCD value at the time of the API call (the only CCCD write racing an API call is the write of 0 of Client.unsubscribe in family unsolicited, logged where it takes effect)",
         "force=True on the plural APIs (notify_subscribers / indicate_subscribers) is not exercised: its set of addressed bearers is not determined by the property",
         "writes are exercised up to ATT_MTU-3 bytes (the client has no long-write procedure)",
     ]
